@@ -5,6 +5,7 @@ package c04
 
 import (
 	"context"
+	"errors"
 	"fmt"
 	"math/rand"
 	"os"
@@ -98,8 +99,14 @@ func freeRound(c freeCfg) (sig, what string, timeBound bool) {
 				case 0:
 					got = l.TryLock(context.Background())
 				case 1:
-					ctx, cancel := context.WithTimeout(context.Background(), time.Duration(r.Intn(400))*time.Microsecond)
-					got = l.LockWithCtx(ctx) == nil
+					ctx, cancel := context.WithTimeoutCause(context.Background(), time.Duration(r.Intn(400))*time.Microsecond, errTooSlow)
+					err := l.LockWithCtx(ctx)
+					got = err == nil
+					if err != nil && !errors.Is(err, ctx.Err()) {
+						failMu.Lock()
+						failed = fmt.Sprintf("LockWithCtx whose context ended (%v, cause %v) returned %v, want the context's error", ctx.Err(), context.Cause(ctx), err)
+						failMu.Unlock()
+					}
 					cancel()
 				case 2:
 					err := l.LockWithCtx(context.Background())
@@ -166,6 +173,8 @@ func freeRound(c freeCfg) (sig, what string, timeBound bool) {
 	_ = kvs.Record{}
 	return "", "", false
 }
+
+var errTooSlow = errors.New("too slow (custom deadline cause)")
 
 func TestCheck(t *testing.T) {
 	run := report.New(prop, "exploration")
@@ -264,6 +273,25 @@ func TestCheck(t *testing.T) {
 					run.Violation("lock/"+o.Sig, "real clock: "+o.What, map[string]any{"mode": "handoff-vs-inflight-renewal", "lease": L.String(), "renewal": 1 + i%2})
 				}
 				return
+			}
+		}(i)
+	}
+	// a stale renewal of the first tenure answered during the second tenure of the same Locker (logical steps)
+	for i := 0; i < run.Pick(4, 16); i++ {
+		hwg.Add(1)
+		go func(i int) {
+			defer hwg.Done()
+			L := []time.Duration{400 * time.Millisecond, 300 * time.Millisecond}[i%2]
+			o := locktap.StaleRenewalAfterReacquire(L, 1+i%2)
+			if o.Skipped != "" {
+				run.Add("stale_renewal_after_reacquire_skipped", 1)
+				return
+			}
+			run.Eval(1)
+			run.Add("stale_renewal_after_reacquire_scenarios", 1)
+			run.DistinctStr(fmt.Sprint("stale-renewal-after-reacquire", L, 1+i%2))
+			if o.Sig != "" {
+				run.Violation("lock/"+o.Sig, "real clock: "+o.What, map[string]any{"mode": "stale-renewal-after-reacquire", "lease": L.String(), "renewal": 1 + i%2})
 			}
 		}(i)
 	}
